@@ -67,10 +67,11 @@ def run_case(spec):
     overwrites = 0
     try:
         nops = int(rng.integers(3, 11))
+        pool = sorted(int(v) for v in rng.choice(np.arange(0, 60), 12, replace=False))
         for opi in range(nops):
             # ------------------------------------------------ save
             k = int(rng.integers(1, 6))
-            its = [int(v) for v in rng.choice(np.arange(0, 60), k, replace=False)]
+            its = [int(v) for v in rng.choice(pool, k, replace=False)]
             order_cls = 'sorted' if its == sorted(its) else 'unsorted'
             with_it = bool(rng.random() < 0.75)
             if not with_it:
@@ -167,7 +168,8 @@ def run_case(spec):
             for _ in range(2):
                 known_its = sorted({k[0] for k in model})
                 rk = int(rng.integers(1, 6))
-                rits = [int(v) for v in rng.choice(known_its + [61, 62], rk)]
+                missing = [int(v) for v in rng.choice(np.arange(0, 64), 3) if int(v) not in known_its]
+                rits = [int(v) for v in rng.choice(known_its + missing + [62], rk)]
                 rrl = int(rng.choice(LEVELS))
                 known_vars = sorted({k[1] for k in model if k[1] not in ('it',)})
                 allv = bool(rng.random() < 0.3)
